@@ -334,6 +334,9 @@ func foldInline(fv reflect.Value, out *model.V, depth int) error {
 			return refused("inline of a folder that does not emit an object")
 		}
 		out.O = append(out.O, v.O...)
+		if v.Unordered && len(v.O) > 1 {
+			out.Unordered = true
+		}
 		return nil
 	}
 	switch fv.Kind() {
@@ -435,4 +438,20 @@ func poolFold(rv reflect.Value) (model.V, bool, error) {
 		return f(rv), true, nil
 	}
 	return model.V{}, false, nil
+}
+
+func init() {
+	poolFolders[reflect.TypeOf(FDeleg{})] = func(rv reflect.Value) model.V {
+		out := model.V{K: model.VObj, Struct: true, O: []model.Member{{Key: []byte("a"), Val: model.Int(rv.Field(0).Int())}}}
+		if !rv.Field(1).IsNil() {
+			m, err := foldV(rv.Field(1), 1)
+			if err == nil {
+				out.O = append(out.O, m.O...)
+				if len(m.O) > 1 {
+					out.Unordered = true
+				}
+			}
+		}
+		return out
+	}
 }
